@@ -314,7 +314,9 @@ fn cmd_check(id: &str, tier: Tier) -> i32 {
             }
         }
     }
-    let evpath = format!("{}/evidence/{}.json", root(), id);
+    // ad-hoc run counts (PCSIM_RUNS) never overwrite the registered evidence file
+    let adhoc = std::env::var("PCSIM_RUNS").is_ok();
+    let evpath = if adhoc { format!("{}/evidence/{}.adhoc.json", root(), id) } else { format!("{}/evidence/{}.json", root(), id) };
     let _ = std::fs::create_dir_all(format!("{}/evidence", root()));
     let _ = std::fs::create_dir_all(format!("{}/replays", root()));
     for i in &b.known_hits {
@@ -371,6 +373,11 @@ fn cmd_check(id: &str, tier: Tier) -> i32 {
     let ev = evidence(scn.as_ref(), tier, seed, &b, wall, 0, &known, &notes, &short, extra);
     if let Err(e) = std::fs::write(&evpath, ev.render()) {
         harness_error(&format!("cannot write {}: {}", evpath, e));
+    }
+    if tier == Tier::Thorough && !adhoc {
+        // keep a copy of the thorough evidence next to the quick one that is committed
+        let _ = std::fs::create_dir_all(format!("{}/evidence/thorough", root()));
+        let _ = std::fs::write(format!("{}/evidence/thorough/{}.json", root(), id), ev.render());
     }
     let prim = b.cov.reach.get(scn.primary_reach()).map(|x| (x.count(), x.len)).unwrap_or((0, 0));
     println!(
